@@ -125,6 +125,7 @@ def gen_case(rng, idx, sdir):
                          "sections": ext_secs})
     ext = exts[0] if exts else None
     nlinks = rng.choice([1, 1, 2, 3, 4])
+    used_tops = set()
     linkers = []
     links = []
     for i in range(nlinks):
@@ -135,12 +136,26 @@ def gen_case(rng, idx, sdir):
             ext = exts[which]
             ext_targets = [p for p, _ in all_secs(ext)]
         depth = rng.choice([0, 1, 2])
-        lpath = prefix + ("linkers",) + tuple("h%d_%d" % (i, d) for d in range(depth)) + ("L%d" % i,)
+        hnames = ["h%d_%d" % (i, d) for d in range(depth)]
+        if not use_ext and rng.random() < 0.3:
+            # the path of the linking Section repeats names of the target's path at the same depth below the fork
+            # (/exp/day1/rec/L -> /exp/day2/rec/T)
+            tp_probe = rng.choice(tpaths)
+            below = list(tp_probe[len(prefix) + 1:-1])[:2]
+            first = below[0] if below else None
+            if below and first not in used_tops and all(" " not in b for b in below):
+                hnames, depth, forced_tp = below, len(below), tp_probe
+                used_tops.add(first)
+            else:
+                forced_tp = None
+        else:
+            forced_tp = None
+        lpath = prefix + ("linkers",) + tuple(hnames) + ("L%d" % i,)
         if use_ext:
             tp = rng.choice(ext_targets)
             tmodel = find_path(ext, list(tp))
         else:
-            tp = rng.choice(tpaths)
+            tp = forced_tp or rng.choice(tpaths)
             tmodel = find_path({"sections": [zone_t]}, list(tp[len(prefix):]))
         own_p, own_s = [], []
         if mode == "other-names":
@@ -169,7 +184,7 @@ def gen_case(rng, idx, sdir):
             links.append({"linker": list(lpath), "kind": "link", "target": list(tp), "mode": mode})
         node = L
         for d in reversed(range(depth)):
-            node = S("h%d_%d" % (i, d), "holder", props(rng.choice([0, 1]), "hp"), [node])
+            node = S(hnames[d], "holder", props(rng.choice([0, 1]), "hp"), [node])
         linkers.append(node)
     zone_l = S("linkers", "zone", [], linkers)
     top = [zone_t, zone_l]
